@@ -236,7 +236,9 @@ let ref_op (x : obj) (c : cur) (ret : string option) : refres =
       let v = nexti c in let d = nextz c in let lb = read_expr_n c in let ub = read_expr_n c in check_den d;
       if v >= n || List.length lb.lcoefs > n || List.length ub.lcoefs > n then raise (Skip "dimension-incompatible");
       let s = (if op = "bounded_affine_image" then bounded_affine_image else bounded_affine_preimage) (nat v) (nat fr) lb ub d xs in
-      { (same s) with claim = (if expressible x.fam v lb d && expressible x.fam v ub d then Exact else Sound) }
+      (* bounds that mention var itself compose two relations: exactness is only claimed for boxes *)
+      let self_free (e : lin) = x.fam = Box || not (List.exists (fun (w, _) -> w = v) (nz e)) in
+      { (same s) with claim = (if expressible x.fam v lb d && expressible x.fam v ub d && self_free lb && self_free ub then Exact else Sound) }
   | "generalized_affine_image_lhs" | "generalized_affine_preimage_lhs" ->
       let l = read_expr_n c in let r = read_rel c in let e = read_expr_n c in
       if List.length l.lcoefs > n || List.length e.lcoefs > n then raise (Skip "dimension-incompatible");
@@ -463,6 +465,7 @@ let ref_query line (x : obj) (c : cur) (ans : string list) =
        | _ -> raise (Syntax "expected ans n"))
   | "relation_with_con" ->
       let k = read_con c n in
+      tags := !tags ^ Printf.sprintf " con_vars=%d con_kind=%s" (List.length (List.filter (fun a -> a <> Z0) k.ccoefs)) (match k.ckd with EQ -> "eq" | GE -> "ge" | GT -> "gt");
       (if x.fam = Box then
          match List.filter (fun (_, a) -> a <> Z0) (List.mapi (fun i a -> (i, a)) k.ccoefs) with
          | [ (v, a) ] when v < List.length x.itvs ->
